@@ -99,6 +99,9 @@ class ClientWorld(world.World):
       return st.resource_name.split('/')[-1]
     if op == 'from_resource_name':
       return clients.Study.from_resource_name(self.sname(s)).resource_name.split('/')[-1]
+    if op in ('suggest', 'check_early_stopping') and o['env'].get('raise') and 'at' not in o['env']:
+      self._raises = getattr(self, '_raises', 0) + 1
+      o = dict(o, env=dict(o['env'], at='factory' if self._raises % 2 == 1 else 'policy'))
     if op == 'suggest':
       world.set_env(o['env'])
       return sorted(t.id for t in self.study(s).suggest(count=o['n'], client_id=o['w']))
